@@ -313,6 +313,7 @@ class Rule(MethodWIGM):
     method = 'wigm' # underlying method
     name = 'mpls'
     quota_name = 'Threshold'
+    undeclaredElectable = False     # undeclared write-ins are always defeated [167.70(c)(1)c]
 
     @classmethod
     def ruleNames(cls):
